@@ -51,6 +51,109 @@ def ids_in(node):
     return out
 
 
+def subterms(t):
+    yield t
+    if t[0] == "cmp":
+        for a in t[2]:
+            yield from subterms(a)
+
+
+def _bound(goal, var):
+    """Exclusive upper bound stated by `{Var < B}` in any of the four spellings."""
+    if goal[0] != "cmp" or len(goal[2]) != 2:
+        return None
+    a, b = goal[2]
+    if a != var or b[0] != "int":
+        return None
+    if goal[1] in ("<", "@<"):
+        return b[1]
+    if goal[1] in ("=<", "@=<"):
+        return b[1] + 1
+    return None
+
+
+def utf8_tables(R):
+    """chars_utf8bytes/2: the encoder's (range, lead byte, length) table and the decoder's (mask, pattern, length)
+    table are those of RFC 3629, and the two agree. The constants are in the clause text, so this is table
+    agreement (RF9), not a run of the encoder."""
+    rel = "src/lib/charsio.pl"
+    text = open(os.path.join(REPO, rel)).read()
+    enc, lead, cont, encode_rec = [], {}, [], []
+    for t, line in P.read_clauses(text):
+        if t[0] != "cmp" or t[1] != "-->" or len(t[2]) != 2:
+            continue
+        head, body = t[2]
+        f = P.functor(head)
+        items = P.conj(body)
+        braces = [g for it in items if it[0] == "cmp" and it[1] == "{}" for g in P.conj(it[2][0])]
+        if f == ("code_to_utf8", 1):
+            var = head[2][0]
+            bs = [b for b in (_bound(g, var) for g in braces) if b is not None]
+            n = pre = None
+            for it in items:
+                if P.functor(it) == ("encode", 3) and it[2][0] == var and it[2][1][0] == "int" and it[2][2][0] == "int":
+                    pre, n = it[2][1][1], it[2][2][1]
+                elif P.list_items(it) == [var]:
+                    n = 1
+            enc.append({"line": line, "bound": bs[0] if len(bs) == 1 else None, "n": n, "prefix": pre, "cut": ("atom", "!") in items})
+        elif f == ("encode", 3) and head[2][2][0] == "var":
+            encode_rec.append((line, braces, items, head))
+        elif f == ("leading", 2) and head[2][0][0] == "int":
+            n = head[2][0][1]
+            mask = pat = sub = None
+            for g in braces:
+                if g[0] == "cmp" and g[1] == "=:=" and g[2][0][0] == "cmp" and g[2][0][1] == "/\\" and g[2][1][0] == "int":
+                    m = [a for a in g[2][0][2] if a[0] == "int"]
+                    if len(m) == 1:
+                        mask, pat = m[0][1], g[2][1][1]
+                if g[0] == "cmp" and g[1] == "is" and g[2][1][0] == "cmp" and g[2][1][1] == "-" and len(g[2][1][2]) == 2 and g[2][1][2][1][0] == "int":
+                    sub = g[2][1][2][1][1]
+            if mask is not None:
+                lead.setdefault(n, []).append({"line": line, "mask": mask, "pat": pat, "sub": sub})
+        elif f == ("continuation", 3) and braces:
+            cont.append((line, braces))
+    if len(enc) < 2 or not lead or not cont or len(encode_rec) != 1:
+        raise AnchorLost("charsio.pl: code_to_utf8//1 (%d clauses), encode//3 (%d), leading//2 (%d), continuation//3 (%d) not all recognised" % (len(enc), len(encode_rec), len(lead), len(cont)))
+
+    def prefix(n):
+        return 0 if n == 1 else 0x100 - (1 << (8 - n))
+
+    def limit(n):
+        return 0x80 if n == 1 else min(1 << (7 - n + 6 * (n - 1)), 0x110000)
+    got = [(e["n"], e["bound"], e["prefix"] if e["n"] != 1 else 0) for e in enc]
+    want = [(n, limit(n), prefix(n)) for n in (1, 2, 3, 4)]
+    R.ob("C37:utf8:encoder-table", got == want and all(e["cut"] for e in enc),
+         "code_to_utf8//1 clauses in order give (length, exclusive upper bound, lead-byte prefix, committed) = %s; RFC 3629 has %s, each clause committed"
+         % ([(n, hex(b) if b is not None else None, hex(p) if p is not None else None, e["cut"]) for (n, b, p), e in zip(got, enc)], [(n, hex(b), hex(p)) for n, b, p in want]),
+         "%s (line %s)" % (rel, enc[0]["line"]))
+    line, braces, items, head = encode_rec[0]
+    ints = lambda name, ts: [a[1] for g in ts for x in subterms(g) if x[0] == "cmp" and x[1] == name for a in x[2] if a[0] == "int"]
+    shift_mul = [a[1] for g in braces for x in subterms(g) if x[0] == "cmp" and x[1] == ">>" for y in subterms(x[2][1]) if y[0] == "cmp" and y[1] == "*" for a in y[2] if a[0] == "int"]
+    rec = [it[2][1][1] for it in items if P.functor(it) == ("encode", 3) and it[2][1][0] == "int"]
+    R.ob("C37:utf8:encoder-continuation-bytes", shift_mul == [6] and ints("/\\", braces) == [0x3F] and rec == [0x80],
+         "encode//3 shifts by %s bits per remaining byte, masks with %s and marks continuation bytes with %s; UTF-8 has 6, 0x3f, 0x80"
+         % (shift_mul, [hex(x) for x in ints("/\\", braces)], [hex(x) for x in rec]), "%s (line %s)" % (rel, line))
+    for n in (1, 2, 3, 4):
+        ls = lead.get(n, [])
+        mask = 0x80 if n == 1 else prefix(n + 1)
+        okd = len(ls) == 1 and ls[0]["mask"] == mask and ls[0]["pat"] == prefix(n) and (n == 1 or ls[0]["sub"] == prefix(n))
+        R.ob("C37:utf8:decoder-lead-byte:%d" % n, okd,
+             "leading(%d, _) tests (mask, pattern, subtracted) = %s; a %d-byte sequence starts with a byte b where b /\\ %s =:= %s, the same prefix the encoder writes"
+             % (n, [(hex(x["mask"]), hex(x["pat"]), hex(x["sub"]) if x["sub"] is not None else None) for x in ls], n, hex(mask), hex(prefix(n))),
+             "%s (line %s)" % (rel, ls[0]["line"] if ls else "?"))
+    cb = [b for _, b in cont if any(x[0] == "cmp" and x[1] == "<<" for g in b for x in subterms(g))]
+    if len(cb) != 1:
+        raise AnchorLost("charsio.pl: the continuation//3 clause that accumulates the code point was not recognised")
+    b = cb[0]
+    mp = [(m[0][1], g[2][1][1]) for g in b if g[0] == "cmp" and g[1] == "=:=" and g[2][0][0] == "cmp" and g[2][0][1] == "/\\" and g[2][1][0] == "int"
+          for m in [[a for a in g[2][0][2] if a[0] == "int"]] if len(m) == 1]
+    sh = [x[2][1][1] for g in b for x in subterms(g) if x[0] == "cmp" and x[1] == "<<" and x[2][1][0] == "int"]
+    sb = [x[2][1][1] for g in b for x in subterms(g) if x[0] == "cmp" and x[1] == "-" and len(x[2]) == 2 and x[2][1][0] == "int" and x[2][1][1] > 1]
+    R.ob("C37:utf8:decoder-continuation-bytes", mp == [(0xC0, 0x80)] and sh == [6] and sb == [0x80],
+         "continuation//3 accepts a byte by (mask, pattern) %s, shifts the accumulated code by %s and subtracts %s; UTF-8 has (0xc0, 0x80), 6, 0x80"
+         % ([(hex(m), hex(q)) for m, q in mp], sh, [hex(x) for x in sb]), rel)
+
+
 def run(ctx, R):
     F = ctx.facts()
     R.rule("RF9 algorithm atom <-> hasher type/constant per arm; RF9 crypto.pl hash_algorithm/1 facts; RF9 base64 engine table")
@@ -91,6 +194,7 @@ def run(ctx, R):
     ra = rust_algs[hash_fn[0]]
     R.ob("C37:hash-algorithms:prolog-equals-rust", pl_algs == ra,
          "crypto.pl accepts %s; crypto_data_hash implements %s (only in Prolog: %s; only in Rust: %s)" % (sorted(pl_algs), sorted(ra), sorted(pl_algs - ra), sorted(ra - pl_algs)), "src/lib/crypto.pl")
+    utf8_tables(R)
     # ---- base64 option table ----------------------------------------------------------------------------------
     b64 = F.find_impl("Machine", None, "chars_base64")
     h = F.hir(b64)
